@@ -37,6 +37,9 @@ EXTERNAL_OBJECT_MAKERS = ("subprocess.", "asyncio.create_subprocess_", "asyncio.
                           "xml.", "urllib.", "http.", "selectors.", "signal.", "time.", "datetime.", "shutil.which")
 
 
+PATHLIB_BUILDERS = ("joinpath", "with_suffix", "with_name", "with_stem", "resolve", "absolute", "expanduser", "relative_to", "with_segments")
+
+
 class _LambdaMark:
     """Stands for a lambda used as a callable value: calling it runs code that is already part of the enclosing function."""
     key = "<lambda>"
@@ -281,6 +284,10 @@ class Resolver:
                 return {("cls", obj)}
             if canon and obj is None and canon.startswith(EXTERNAL_OBJECT_MAKERS):
                 return {("ext", canon)}   # a process, socket, match, hash, stat result ...: never an instance of a class of the package
+            # x.joinpath(...), x.with_suffix(...), x.resolve() ...: the path-building methods of pathlib, which no class of the package defines - the result is a path
+            if isinstance(expr.func, ast.Attribute) and expr.func.attr in PATHLIB_BUILDERS and not any(
+                    expr.func.attr in ci.methods for ci in idx.classes.values()):
+                return {("ext", "pathlib.Path")}
             out = set()
             for callee in self.callees(expr, finfo, {}):
                 if isinstance(callee, BoundFunc):
